@@ -134,6 +134,13 @@ def r14_2(chk, cr, fx, memos, mutators):
                expected=f"removal of {sorted(memos)} after the last state store",
                found=f"not removed: {missing}" + (f"; return before invalidation at line {early[0].lineno}" if early else "") +
                      f" (writes: {[w.how for w in ws][:3]})")
+        # the state objects keep the arrays they were given (np.asarray, no copy): a state change gives the state a NEW array or object; writing
+        # elements into the existing one also changes every other holder of that array (another crystal built from the same coordinates, the
+        # caller's array) -- whose memos nobody drops
+        inplace = [w for w in ws if not (w.how.startswith("rebinds ") or (w.how.startswith("stores into ") and "[" not in w.how))]
+        chk.ob("R14.2", CR, f"Crystal.{m}", f"the state change of {sorted({w.attr for w in ws})} replaces arrays / objects; it writes no elements into "
+               "an existing array that other objects may share", not inplace, node=inplace[0].node if inplace else fn, fingerprint="replace-not-write",
+               expected="self.<state>.<array> = <new array>", found=[w.how[:120] for w in inplace])
 
 
 def external_consumers(chk, cr, methods):
